@@ -141,12 +141,17 @@ class IterableQueue(Iterator[Elem]):
             self._spare_lids = queue.Queue(maxsize=num_suppliers)
             self._applied_lids = queue.Queue(maxsize=num_suppliers)
             self._used_lids = queue.Queue(maxsize=num_suppliers)
+            self._extra_lid = queue.Queue(maxsize=1)
         else:
             self._spare_lids = multiprocessing.Queue(maxsize=num_suppliers)
             self._applied_lids = multiprocessing.Queue(maxsize=num_suppliers)
             self._used_lids = multiprocessing.Queue(maxsize=num_suppliers)
+            self._extra_lid = multiprocessing.Queue(maxsize=1)
         for _ in range(num_suppliers):
             self._spare_lids.put(None)
+        self._extra_lid.put(None)
+        # The consumer that takes this single token is the one that adds the extra
+        # end marker to the queue; see `__next__`. `renew` puts the token back.
         # User should not touch these internal helper queues.
         # TODO: the name 'lid' is not very good; something implying the "bottom" would be better.
         # TODO: do we need to use a lock to group the access to the helper queues?
@@ -161,6 +166,7 @@ class IterableQueue(Iterator[Elem]):
             self._applied_lids,
             self._used_lids,
             self._can_timeout,
+            self._extra_lid,
         )
 
     def __setstate__(self, zz):
@@ -172,6 +178,7 @@ class IterableQueue(Iterator[Elem]):
             self._applied_lids,
             self._used_lids,
             self._can_timeout,
+            self._extra_lid,
         ) = zz
 
     @property
@@ -272,7 +279,15 @@ class IterableQueue(Iterator[Elem]):
                 # This is the only extra `None`: there is only one consumer
                 # who is the first to see the bottom of the queue, and subsequent
                 # consumers will get/put this `None` without increasing its count.
-                self.put(None)
+                # Several consumers may have moved a lid and see `_used_lids` full
+                # at about the same time; only the one that obtains the single
+                # token adds the extra `None`.
+                try:
+                    self._extra_lid.get(timeout=0.01)
+                except queue.Empty:
+                    pass
+                else:
+                    self.put(None)
                 raise StopIteration
             # The queue is not exhausted because all suppliers's end markers ("lids")
             # have not been collected yet.
@@ -312,3 +327,4 @@ class IterableQueue(Iterator[Elem]):
         for _ in range(self._num_suppliers):
             z = self._used_lids.get()
             self._spare_lids.put(z)
+        self._extra_lid.put(None)
